@@ -67,6 +67,12 @@ def known_for_engine(prop, famname, known):
     return out
 
 
+def _replay_env(f):
+    # the native run sees the same page size as the engine (the memory pool derives its chunk geometry from it)
+    ps = (f.opts or {}).get('pagesize')
+    return {'SYM_PAGESIZE': str(ps)} if ps else None
+
+
 def _doubles_exact(inputs):
     from fractions import Fraction
     for i in inputs:
@@ -218,7 +224,7 @@ class Check:
                 continue         # the model's real inputs are not doubles: the native run would see rounded values
             if binary is None:
                 binary = s._native(f)
-            out = e1.replay(binary, f.entry, pth['inputs'])
+            out = e1.replay(binary, f.entry, pth['inputs'], env_extra=_replay_env(f))
             nval += 1
             if out['diverged'] or out['fails'] or out['rc'] not in (0,) or not e1.notes_agree(pth['notes'], out['notes']):
                 s.problems.append('%s: native run disagrees with a passing symbolic path: rc=%s fails=%s diverged=%s inputs=%s engine_notes=%s native_notes=%s stderr=%s'
@@ -234,7 +240,7 @@ class Check:
     def _replay_violation(s, f, v):
         try:
             binary = s._native(f, san=False)
-            out = e1.replay(binary, f.entry, v['inputs'])
+            out = e1.replay(binary, f.entry, v['inputs'], env_extra=_replay_env(f))
             res = {'rc': out['rc'], 'fails': out['fails'][:6], 'diverged': out['diverged'], 'stderr': out['stderr'][-400:]}
             label = v.get('label') or ''
             if v['kind'] == 'assert':
@@ -246,7 +252,7 @@ class Check:
                 if not res['confirmed'] and (v['kind'] in ('memory', 'uninit', 'ub', 'control')):
                     try:
                         sb = s._native(f, san=True)
-                        o2 = e1.replay(sb, f.entry, v['inputs'])
+                        o2 = e1.replay(sb, f.entry, v['inputs'], env_extra=_replay_env(f))
                         res['san_rc'] = o2['rc']
                         res['san_stderr'] = o2['stderr'][-600:]
                         res['confirmed'] = o2['rc'] in (66, 67, -6, -11) or 'ERROR: AddressSanitizer' in o2['stderr'] or 'runtime error' in o2['stderr']
